@@ -278,22 +278,7 @@ class ImplSession:
         return st, bytes(buf), dn, en
 
 
-def priv(obj, name):
-    """A private attribute of the implementation that the harness projects the state through.  When a clean-up renamed it
-    (prefix / suffix added), the one attribute whose name ends with the old name is taken instead; anything else is an
-    AttributeError (the correspondence then cannot be run: no-failing-input-found)."""
-    try:
-        return getattr(obj, name)
-    except AttributeError:
-        pass
-    key = name.strip("_")
-    names = [n for k in type(obj).__mro__ for n in getattr(k, "__slots__", ())] + list(getattr(obj, "__dict__", {}))
-    cands = sorted({n for n in names if n.strip("_").endswith(key) and hasattr(obj, n)})
-    if len(cands) != 1:
-        cands = sorted({n for n in names if key in n and hasattr(obj, n)})
-    if len(cands) == 1:
-        return getattr(obj, cands[0])
-    raise AttributeError(f"{type(obj).__name__} has no attribute {name} (candidates after a rename: {cands})")
+from .privnames import priv  # noqa: E402  (rename-tolerant access to the helper's private state)
 
 
 def _counter(cipher):
